@@ -9,10 +9,10 @@ from parglare.exceptions import LoopError
 from parglare.tables import LALR, SLR
 
 from vlib.monitors.common import (BudgetExceeded, KIND_NAME, TooDeep, build, exc_str, node_to_spec,
-                                  outcome)
+                                  outcome, raised_in_repo)
 from vlib.scope import grammar_text, inputs, prod_index_map
 from vlib.spec import sppf
-from vlib.spec.cfg import CFG, check_derivation, lit, regex, tree_shape
+from vlib.spec.cfg import CFG, check_derivation, lit, lit_ic, regex, tree_shape
 
 MAX_TREES = 400
 
@@ -29,6 +29,38 @@ def layout_variants(w, tier, maxlen_for_layout, layout_rule=False):
         yield "spaced", " " + " ".join(w) + ("  " if w else " ")
         if tier == "thorough" or len(w) <= 2:
             yield "newlines", "".join(c + "\n\t" for c in w)
+
+
+def list_input_setup(prods):
+    """list (non-string) inputs: terminals without a body, recognised by Python recognisers on list elements;
+    returns (spec matchers, grammar text, recognizers for Grammar.from_string)"""
+    ut = used_terms(prods) or ["a"]
+
+    def spec_m(t):
+        def m(seq, pos):
+            return 1 if pos < len(seq) and seq[pos] == t else None
+        m.kind = "str"
+        m.text = t
+        return m
+
+    def rec(t):
+        def r(inp, pos):
+            return inp[pos:pos + 1] if pos < len(inp) and inp[pos] == t else None
+        return r
+    return ({t: spec_m(t) for t in ut}, grammar_text(prods, {t: "" for t in ut}), {f"T_{t}": rec(t) for t in ut})
+
+
+def with_layout_rule(text):
+    """the grammar text with a LAYOUT rule whose language is (blank | '#')*, and the layout alphabet"""
+    lines = text.split("\n")
+    rules = ["LAYOUT: LayoutItem*;", "LayoutItem: WS | HASH;"]
+    tdecl = ["WS: /\\s+/;", "HASH: '#';"]
+    if "terminals" in lines:
+        k = lines.index("terminals")
+        lines = lines[:k] + rules + lines[k:] + tdecl
+    else:
+        lines = lines + rules + ["terminals"] + tdecl
+    return "\n".join(lines), "\n\r\t #"
 
 
 def used_terms(prods):
@@ -57,7 +89,7 @@ def glr_grammar_worker(args):
     tier = params["tier"]
     ts = TERMSETS[params.get("termset", "disjoint")]
     if ts is None:
-        terms = {t: lit(t) for t in (used_terms(prods) or ["a"])}
+        terms = {t: (lit_ic(t) if params.get("ignore_case") else lit(t)) for t in (used_terms(prods) or ["a"])}
         text = grammar_text(prods)
         tname = None
     else:
@@ -70,16 +102,12 @@ def glr_grammar_worker(args):
     ws = "\n\r\t "
     layout_rule = bool(params.get("layout_rule"))
     if layout_rule:
-        ws = "\n\r\t #"
-        lines = text.split("\n")
-        rules = ["LAYOUT: LayoutItem*;", "LayoutItem: WS | HASH;"]
-        tdecl = ["WS: /\\s+/;", "HASH: '#';"]
-        if "terminals" in lines:
-            k = lines.index("terminals")
-            lines = lines[:k] + rules + lines[k:] + tdecl
-        else:
-            lines = lines + rules + ["terminals"] + tdecl
-        text = "\n".join(lines)
+        text, ws = with_layout_rule(text)
+    list_input = bool(params.get("list_input"))
+    recognizers = None
+    if list_input:
+        terms, text, recognizers = list_input_setup(prods)
+        ws = ""
     cfg = CFG(prods, terms, ws=ws)
     cyclic = cfg.is_cyclic()
     pmap = prod_index_map(prods)
@@ -95,6 +123,10 @@ def glr_grammar_worker(args):
             key["termset"] = params["termset"]
         if layout_rule:
             key["layout"] = "LAYOUT rule"
+        if params.get("ignore_case"):
+            key["ignore_case"] = True
+        if list_input:
+            key["input_kind"] = "list"
         key.update(extra)
         res["violations"].append((monitor, key, detail,
                                   {"family": "glr", "pid": pid, "prods": prods, "params": params}))
@@ -102,7 +134,10 @@ def glr_grammar_worker(args):
     if pid in ("C02", "C17") and cyclic:
         return res  # these properties quantify over acyclic grammars
     try:
-        g = Grammar.from_string(text)
+        if list_input:
+            g = Grammar.from_string(text, recognizers=recognizers)
+        else:
+            g = Grammar.from_string(text, ignore_case=True) if params.get("ignore_case") else Grammar.from_string(text)
     except Exception as e:  # grammar front end refuses a reduced grammar
         res["violations"].append(("grammar.from_string", {"grammar": text}, exc_str(e)))
         return res
@@ -112,6 +147,8 @@ def glr_grammar_worker(args):
         if only and KIND_NAME[kind] != only["tables"]:
             continue
         kw = {}
+        if list_input:
+            kw["ws"] = None
         if pid == "C17":
             kw["consume_input"] = False
         try:
@@ -123,7 +160,7 @@ def glr_grammar_worker(args):
             viol("glr.constructs", kind, None, exc_str(e))
             continue
         for w in inputs(alphabet, params["max_len"]):
-            for vname, txt in layout_variants(w, tier, params["layout_len"], layout_rule):
+            for vname, txt in ([("list", list(w))] if list_input else layout_variants(w, tier, params["layout_len"], layout_rule)):
                 if only and txt != only["input"]:
                     continue
                 res["evaluations"] += 1
@@ -161,7 +198,15 @@ def glr_grammar_worker(args):
                 if st != "ok":
                     continue
                 forest = val
-                check_forest(pid, forest, cfg, L, cyclic, pmap, viol, kind, txt, bump, parser)
+                try:
+                    check_forest(pid, forest, cfg, L, cyclic, pmap, viol, kind, txt, bump, parser)
+                except (TooDeep, RecursionError):
+                    bump("tree_too_deep")
+                except Exception as e:  # noqa
+                    if not raised_in_repo(e):
+                        raise
+                    # the real code raised while the forest / its trees were read through the public API
+                    viol("glr.forest_access_raises", kind, txt, {"observed": exc_str(e)})
     return res
 
 
@@ -192,6 +237,8 @@ def check_rendering(e, txt, viol, kind, who):
         if (e.location.line, e.location.column) != (line, col):
             viol(f"{who}.line_column", kind, txt, {"expected": [line, col],
                                                    "observed": [e.location.line, e.location.column]})
+    if isinstance(pos, int):
+        # (string and list inputs alike)
         says_eof = "end of file" in s
         if says_eof != (pos == len(txt)):
             viol(f"{who}.eof_message", kind, txt, {"expected_eof": pos == len(txt), "message": s[:200]})
